@@ -269,6 +269,7 @@ class TypedNode(Node):
             topnodes = child._root.children.copy()
             if before is not None and before is not False:
                 topnodes.reverse()
+            self._check_copies(topnodes, deep)
             for n in topnodes:
                 self.add_child(n, before=before, deep=deep)
             return
